@@ -18,7 +18,7 @@ Qed.
 Definition reg (st : state) (a : Z) (o : tobj) : Prop :=
   hget a (heap st) = Some o /\ In (o_exp o, a) (timers st).
 
-Lemma run_cbs_reg : forall ex st script now X st' ev a o, Inv st -> DInv st (X ++ padds (pending st)) ->
+Lemma run_cbs_reg : forall ex st script now X st' ev a o, Inv st -> DInv st (X ++ detq st) ->
   incl (map snd ex) X -> reg st a o -> run_cbs st ex script now = Ok (st', ev) ->
   reg st' a o \/ gone st' (o_seq o).
 Proof.
@@ -96,7 +96,7 @@ Proof.
         assert (0 < d1) by (eapply (i_pos _ _ _ _ I); rewrite Eapp; left; eauto).
         pose proof (Lex d1 a1 (or_introl eq_refl)). lia. }
       assert (R5 : reg (set_calling st4 false) a o) by exact R4.
-      pose proof (reset_loop_reg ex (set_calling st4 false) (clk st) (padds (pending st4)) st6 a o I4 D4 Pn R5 EL) as [G6 T6].
+      pose proof (reset_loop_reg ex (set_calling st4 false) (clk st) (detq st4) st6 a o I4 D4 Pn R5 EL) as [G6 T6].
       split; [rewrite Eh; auto | rewrite Et; auto].
     + right. assert (G5 : gone (set_calling st4 false) (o_seq o)) by exact Gn.
       pose proof (reset_loop_gone _ _ _ _ _ EL G5) as G6. unfold gone in *. rewrite Eh, En. exact G6.
@@ -106,25 +106,33 @@ Proof.
   - intros s dl n t Hr. destruct (Early _ _ _ _ Hr) as (a' & _ & Le & _). exact Le.
 Qed.
 
-Lemma run_functors_reg : forall fs st st' ev a o, Inv st -> DInv st (padds fs) -> reg st a o ->
+Lemma run_functors_reg : forall fs st st' ev a o, Inv st -> DInv st (padds fs ++ detq st) -> reg st a o ->
   run_functors st fs = Ok (st', ev) -> reg st' a o \/ gone st' (o_seq o).
 Proof.
-  induction fs as [|[b|b s] r IH]; intros st st' ev a o I D [G Hi] H; cbn [run_functors] in H.
+  induction fs as [|[b|b s|cs] r IH]; intros st st' ev a o I D [G Hi] H; cbn [run_functors] in H.
   - inversion H; subst. left; split; auto.
-  - cbn [padds] in D. destruct D as [N Dt]. inversion N as [|x l NIb N']; subst.
+  - cbn [padds app] in D. destruct D as [N Dt]. inversion N as [|x l NIb N']; subst.
     destruct (Dt b (or_introl eq_refl)) as [[ob [Gb Pob]] NDb].
-    assert (D' : DInv st (padds r)) by (split; auto; intros c Hc; apply Dt; right; auto).
+    assert (D' : DInv st (padds r ++ detq st)) by (split; auto; intros c Hc; apply Dt; right; auto).
     pose proof (add_in_loop_good st b ob _ I Gb NDb Pob D' NIb) as GA.
     destruct (add_in_loop st b) as [[st1 e1]| |] eqn:E1; cbn [bind good] in *; try discriminate.
     destruct (run_functors st1 r) as [[st2 e2]| |] eqn:E2; cbn [bind] in H; try discriminate.
-    inversion H; subst. destruct GA as (I1 & D1 & _ & _ & Eh & _). cbn [fst] in *.
+    inversion H; subst. destruct GA as (I1 & D1 & _ & F1 & Eh & _). cbn [fst] in *.
+    rewrite <- (detq_frame _ _ F1) in D1.
     eapply IH; [exact I1 | exact D1 | | exact E2]. split; [rewrite Eh; auto|]. eapply add_in_loop_timers; eauto.
   - cbn [padds] in D. pose proof (cancel_good st b s _ I D) as GC.
     destruct (cancel_in_loop st b s) as [st1| |] eqn:E1; cbn [bind good] in *; try discriminate.
-    destruct GC as (I1 & D1 & _ & _).
+    destruct GC as (I1 & D1 & _ & F1). rewrite <- (detq_frame _ _ F1) in D1.
     assert (E1' : cb_step st (CCancel b s) = Ok (st1, [])) by (cbn [cb_step]; rewrite E1; reflexivity).
     destruct (cb_step_obj _ _ _ _ _ _ I G E1') as [[G' T']|[_ Gn]].
     + eapply IH; [exact I1 | exact D1 | split; eauto | exact H].
+    + right. eapply run_functors_gone; eauto.
+  - cbn [padds] in D. pose proof (cb_run_good cs st (padds r) I D) as GC.
+    destruct (cb_run st cs) as [[st1 e1]| |] eqn:E1; cbn [bind good] in *; try discriminate.
+    destruct (run_functors st1 r) as [[st2 e2]| |] eqn:E2; cbn [bind] in H; try discriminate.
+    inversion H; subst. destruct GC as (I1 & D1 & _ & _). cbn [fst] in *.
+    destruct (cb_run_reg _ _ _ _ _ _ _ _ I D G Hi E1) as [[G' Hi']|Gn].
+    + eapply IH; [exact I1 | exact D1 | split; eauto | exact E2].
     + right. eapply run_functors_gone; eauto.
 Qed.
 
@@ -277,12 +285,16 @@ Proof.
 Qed.
 
 (* ------------------------------------------------------------------ no cancel of A's id: A cannot die before it runs *)
-Definition cb_cancels (a s : Z) (c : cbop) : bool :=
-  match c with CCancel a' s' | CFCancel a' s' => (a' =? a) && (s' =? s) | _ => false end.
+Fixpoint cb_cancels (a s : Z) (c : cbop) : bool :=
+  match c with
+  | CCancel a' s' | CFCancel a' s' => (a' =? a) && (s' =? s)
+  | CQueue cs => existsb (cb_cancels a s) cs          (* a user functor that will issue the cancel *)
+  | _ => false
+  end.
 Definition op_cancels (a s : Z) (o : op) : bool :=
   match o with Cb c => cb_cancels a s c | Fire script => existsb (existsb (cb_cancels a s)) script | RunPending => false end.
 Definition pf_cancels (a s : Z) (f : pfun) : bool :=
-  match f with PCancel a' s' => (a' =? a) && (s' =? s) | PAdd _ => false end.
+  match f with PCancel a' s' => (a' =? a) && (s' =? s) | PAdd _ => false | PUser cs => existsb (cb_cancels a s) cs end.
 
 Lemma cb_step_nc : forall st c st' ev b o, Inv st -> reg st b o -> cb_cancels b (o_seq o) c = false ->
   existsb (pf_cancels b (o_seq o)) (pending st) = false -> cb_step st c = Ok (st', ev) ->
@@ -290,7 +302,7 @@ Lemma cb_step_nc : forall st c st' ev b o, Inv st -> reg st b o -> cb_cancels b 
 Proof.
   intros st c st' ev b o I [G Hi] NC NP H.
   destruct (cb_step_obj _ _ _ _ _ _ I G H) as [[G' T']|[HA Gn]].
-  - split; [split; auto|]. destruct c as [d|w iv a|a s|w iv a|a s]; cbn [cb_step] in H.
+  - split; [split; auto|]. destruct c as [d|w iv a|a s|w iv a|a s|w iv a|a|cs]; cbn [cb_step] in H.
     + destruct (d <? 0); inversion H; subst. exact NP.
     + destruct (alloc st w iv a) as [[st1 s]| |] eqn:EA; cbn [bind] in H; try discriminate.
       destruct (add_in_loop st1 a) as [[st2 e]| |] eqn:EL; cbn [bind] in H; try discriminate.
@@ -303,8 +315,15 @@ Proof.
       cbn [pending set_pending]. rewrite Ep, existsb_app, NP. reflexivity.
     + inversion H; subst. cbn [pending set_pending]. rewrite existsb_app, NP. cbn [existsb pf_cancels cb_cancels] in *.
       rewrite NC. reflexivity.
+    + destruct (alloc st w iv a) as [[st1 s]| |] eqn:EA; cbn [bind] in H; try discriminate. inversion H; subst.
+      destruct (alloc_shape _ _ _ _ _ _ EA) as (_ & _ & _ & _ & _ & _ & _ & _ & Ep & _).
+      cbn [pending set_inflight]. rewrite Ep. exact NP.
+    + destruct (zmem a (inflight st)); inversion H; subst. cbn [pending set_pending set_inflight].
+      rewrite existsb_app, NP. reflexivity.
+    + inversion H; subst. cbn [pending set_pending]. rewrite existsb_app, NP. cbn [existsb pf_cancels]. cbn [cb_cancels] in NC.
+      rewrite NC. reflexivity.
   - (* the object died: only a cancel of exactly its id does that *)
-    exfalso. destruct c as [d|w iv a|a s|w iv a|a s]; cbn [cb_step] in H.
+    exfalso. destruct c as [d|w iv a|a s|w iv a|a s|w iv a|a|cs]; cbn [cb_step] in H.
     + destruct (d <? 0); inversion H; subst. destruct Gn as [_ Gn]. eapply Gn; eauto.
     + destruct (alloc st w iv a) as [[st1 s]| |] eqn:EA; cbn [bind] in H; try discriminate.
       destruct (add_in_loop st1 a) as [[st2 e]| |] eqn:EL; cbn [bind] in H; try discriminate.
@@ -325,9 +344,14 @@ Proof.
       destruct (alloc_shape _ _ _ _ _ _ EA) as (_ & _ & Eh & G0 & _). destruct Gn as [_ Gn]. eapply (Gn b o); auto.
       cbn. rewrite Eh. rewrite hget_cons_other; auto. intros ->. congruence.
     + inversion H; subst. destruct Gn as [_ Gn]. eapply Gn; eauto.
+    + destruct (alloc st w iv a) as [[st1 s]| |] eqn:EA; cbn [bind] in H; try discriminate. inversion H; subst.
+      destruct (alloc_shape _ _ _ _ _ _ EA) as (_ & _ & Eh & G0 & _). destruct Gn as [_ Gn]. eapply (Gn b o); auto.
+      cbn. rewrite Eh. rewrite hget_cons_other; auto. intros ->. congruence.
+    + destruct (zmem a (inflight st)); inversion H; subst. destruct Gn as [_ Gn]. eapply (Gn b o); eauto.
+    + inversion H; subst. destruct Gn as [_ Gn]. eapply Gn; eauto.
 Qed.
 
-Lemma cb_run_nc : forall cs st X st' ev b o, Inv st -> DInv st (X ++ padds (pending st)) -> reg st b o ->
+Lemma cb_run_nc : forall cs st X st' ev b o, Inv st -> DInv st (X ++ detq st) -> reg st b o ->
   existsb (cb_cancels b (o_seq o)) cs = false -> existsb (pf_cancels b (o_seq o)) (pending st) = false ->
   cb_run st cs = Ok (st', ev) -> reg st' b o /\ existsb (pf_cancels b (o_seq o)) (pending st') = false.
 Proof.
@@ -347,7 +371,7 @@ Lemma script_nc_split : forall (f : cbop -> bool) script, existsb (existsb f) sc
   existsb f (hd [] script) = false /\ existsb (existsb f) (tl script) = false.
 Proof. intros f [|g r] H; cbn in *; auto. apply orb_false_iff in H. exact H. Qed.
 
-Lemma run_cbs_nc : forall ex st script now X st' ev b o, Inv st -> DInv st (X ++ padds (pending st)) ->
+Lemma run_cbs_nc : forall ex st script now X st' ev b o, Inv st -> DInv st (X ++ detq st) ->
   incl (map snd ex) X -> reg st b o -> existsb (existsb (cb_cancels b (o_seq o))) script = false ->
   existsb (pf_cancels b (o_seq o)) (pending st) = false -> run_cbs st ex script now = Ok (st', ev) ->
   reg st' b o /\ existsb (pf_cancels b (o_seq o)) (pending st') = false.
@@ -363,41 +387,39 @@ Proof.
     eapply (IH st1 (tl script) now X st' e2 b o I1 D1); eauto. intros x Hx. apply Sub. right; auto.
 Qed.
 
-Lemma run_functors_nc : forall fs st st' ev b o, Inv st -> DInv st (padds fs) -> reg st b o ->
-  existsb (pf_cancels b (o_seq o)) fs = false -> run_functors st fs = Ok (st', ev) ->
-  reg st' b o /\ pending st' = pending st.
+Lemma run_functors_nc : forall fs st st' ev b o, Inv st -> DInv st (padds fs ++ detq st) -> reg st b o ->
+  existsb (pf_cancels b (o_seq o)) fs = false -> existsb (pf_cancels b (o_seq o)) (pending st) = false ->
+  run_functors st fs = Ok (st', ev) ->
+  reg st' b o /\ existsb (pf_cancels b (o_seq o)) (pending st') = false.
 Proof.
-  induction fs as [|[a|a s] r IH]; intros st st' ev b o I D [G Hi] NP H; cbn [run_functors] in H.
+  induction fs as [|[a|a s|cs] r IH]; intros st st' ev b o I D [G Hi] NP NQ H; cbn [run_functors] in H.
   - inversion H; subst. split; [split|]; auto.
-  - cbn [padds] in D. destruct D as [N Dt]. inversion N as [|x l NIa N']; subst.
+  - cbn [padds app] in D. destruct D as [N Dt]. inversion N as [|x l NIa N']; subst.
     destruct (Dt a (or_introl eq_refl)) as [[oa [Ga Poa]] NDa].
-    assert (D' : DInv st (padds r)) by (split; auto; intros c Hc; apply Dt; right; auto).
+    assert (D' : DInv st (padds r ++ detq st)) by (split; auto; intros c Hc; apply Dt; right; auto).
     pose proof (add_in_loop_good st a oa _ I Ga NDa Poa D' NIa) as GA.
     destruct (add_in_loop st a) as [[st1 e1]| |] eqn:E1; cbn [bind good] in *; try discriminate.
     destruct (run_functors st1 r) as [[st2 e2]| |] eqn:E2; cbn [bind] in H; try discriminate.
-    inversion H; subst. destruct GA as (I1 & D1 & _ & (_ & Fp & _) & Eh & _). cbn [fst] in *.
+    inversion H; subst. destruct GA as (I1 & D1 & _ & F1 & Eh & _). cbn [fst] in *.
+    rewrite <- (detq_frame _ _ F1) in D1. destruct F1 as (_ & Fp & _).
     cbn [existsb pf_cancels orb] in NP.
     assert (R1 : reg st1 b o) by (split; [rewrite Eh; auto | eapply add_in_loop_timers; eauto]).
-    destruct (IH st1 st' e2 b o I1 D1 R1 NP E2) as [R' P']. split; auto. congruence.
+    apply (IH st1 st' e2 b o I1 D1 R1 NP); [rewrite Fp; exact NQ | exact E2].
   - cbn [padds] in D. cbn [existsb] in NP. apply orb_false_iff in NP as [NP1 NP2].
     pose proof (cancel_good st a s _ I D) as GC.
     destruct (cancel_in_loop st a s) as [st1| |] eqn:E1; cbn [bind good] in *; try discriminate.
-    destruct GC as (I1 & D1 & _ & (_ & Fp & _)).
+    destruct GC as (I1 & D1 & _ & F1). rewrite <- (detq_frame _ _ F1) in D1. destruct F1 as (_ & Fp & _).
     assert (E1' : cb_step st (CCancel a s) = Ok (st1, [])) by (cbn [cb_step]; rewrite E1; reflexivity).
-    assert (NE : existsb (pf_cancels b (o_seq o)) (pending st) = false \/ True) by auto.
-    destruct (cb_step_obj _ _ _ _ _ _ I G E1') as [[G' T']|[HA Gn]].
-    + assert (R1 : reg st1 b o) by (split; auto).
-      destruct (IH st1 st' ev b o I1 D1 R1 NP2 H) as [R' P']. split; auto. congruence.
-    + exfalso. (* the object died: the functor was a cancel of exactly its id *)
-      unfold cancel_in_loop in E1. rewrite (sizes_agree_inv _ I) in E1. cbn [assert bind] in E1.
-      destruct (kmem (a, s) (active st)) eqn:KM.
-      * apply kmem_iff in KM. destruct (i_at _ _ _ _ I _ _ KM) as (oa & Ga & Es & _).
-        destruct (Z.eq_dec a b) as [->|N].
-        -- rewrite G in Ga. inversion Ga; subst oa. cbn [pf_cancels] in NP1. rewrite Es, !Z.eqb_refl in NP1. discriminate.
-        -- unfold deref in E1. rewrite Ga in E1. cbn [bind] in E1.
-           destruct (kerase _ (timers st)); try discriminate. destruct (kerase _ (active st)); try discriminate.
-           inversion E1; subst. destruct Gn as [_ Gn]. eapply (Gn b o); auto. cbn. rewrite hget_hdel_other; auto.
-      * destruct (calling st); inversion E1; subst; destruct Gn as [_ Gn]; eapply (Gn b o); eauto.
+    assert (NC : cb_cancels b (o_seq o) (CCancel a s) = false) by exact NP1.
+    destruct (cb_step_nc _ _ _ _ _ _ I (conj G Hi) NC NQ E1') as [R1 NQ1].
+    apply (IH st1 st' ev b o I1 D1 R1 NP2 NQ1 H).
+  - cbn [padds] in D. cbn [existsb] in NP. apply orb_false_iff in NP as [NP1 NP2]. cbn [pf_cancels] in NP1.
+    pose proof (cb_run_good cs st (padds r) I D) as GC.
+    destruct (cb_run st cs) as [[st1 e1]| |] eqn:E1; cbn [bind good] in *; try discriminate.
+    destruct (run_functors st1 r) as [[st2 e2]| |] eqn:E2; cbn [bind] in H; try discriminate.
+    inversion H; subst. destruct GC as (I1 & D1 & _ & _). cbn [fst] in *.
+    destruct (cb_run_nc _ _ _ _ _ _ _ I D (conj G Hi) NP1 NQ E1) as [R1 NQ1].
+    apply (IH st1 st' e2 b o I1 D1 R1 NP2 NQ1 E2).
 Qed.
 
 Lemma fire_nc : forall st script st' ev a o, Top st -> reg st a o -> clk st < o_exp o ->
@@ -419,8 +441,8 @@ Proof.
     assert (0 < d1) by (eapply (i_pos _ _ _ _ I); rewrite Eapp; left; eauto).
     pose proof (Lex d1 a1 (or_introl eq_refl)). lia. }
   assert (R5 : reg (set_calling st4 false) a o) by exact R4.
-  pose proof (reset_loop_reg ex (set_calling st4 false) (clk st) (padds (pending st4)) st6 a o I4 D4 Pn R5 EL) as [G6 T6].
-  pose proof (reset_loop_good ex (set_calling st4 false) (clk st) (padds (pending st4)) I4 D4 Pn) as GL.
+  pose proof (reset_loop_reg ex (set_calling st4 false) (clk st) (detq st4) st6 a o I4 D4 Pn R5 EL) as [G6 T6].
+  pose proof (reset_loop_good ex (set_calling st4 false) (clk st) (detq st4) I4 D4 Pn) as GL.
   rewrite EL in GL. cbn [good] in GL. destruct GL as (_ & _ & (_ & F2 & _)). cbn in F2.
   split; [split; [rewrite Eh; auto | rewrite Et; auto]|]. rewrite Ep, F2. exact NP4.
 Qed.
@@ -433,8 +455,7 @@ Proof.
   intros st o st' ev a ob T R Lt NC NP H. pose proof T as (I & D & _). destruct o as [c|script|]; cbn [step op_cancels] in *.
   - eapply cb_step_nc; eauto.
   - eapply fire_nc; eauto.
-  - destruct (run_functors_nc (pending st) (set_pending st []) st' ev a ob I D R NP H) as [R' P']. split; auto.
-    rewrite P'. reflexivity.
+  - exact (run_functors_nc (pending st) (set_pending st []) st' ev a ob I D R NP eq_refl H).
 Qed.
 
 (* the continuation invariant when no cancel of A's id is issued *)
